@@ -1062,4 +1062,40 @@ theorem repairIndex_noMarks (readHeader : Nat → Option Nat → Nat → Option 
     · cases hg
     · simp only [List.mem_singleton] at hg; subst hg; rfl
 
+/-! ### the `dry_run` flag of `repair_index` (`repairFileD` / `repairIndexD`) -/
+
+theorem repairFileD_false (readAll : Bool) (st : RepairAcc) (f : IndexFile) :
+    repairFileD false readAll st f = repairFile readAll st f := by
+  unfold repairFileD repairFile
+  simp only
+  split <;> simp_all
+
+theorem repairIndexD_false (readHeader : Nat → Option Nat → Nat → Option (List IndexBlob)) (store : List (Nat × Nat))
+    (files : List IndexFile) (readAll : Bool) :
+    repairIndexD false readHeader store files readAll = repairIndex readHeader store files readAll := by
+  have h : repairFileD false readAll = repairFile readAll := by
+    funext st f; exact repairFileD_false readAll st f
+  have hb : ∀ (x : Option (List IndexBlob)) (g : List IndexBlob → IndexPack),
+      (x.bind fun a => some (g a)) = x.map g := by intro x g; cases x <;> rfl
+  unfold repairIndexD repairIndex
+  simp only [h, Bool.false_eq_true, if_false, hb]
+
+theorem repairFileD_dry_out (readAll : Bool) (st : RepairAcc) (f : IndexFile) :
+    (repairFileD true readAll st f).out = st.out ++ [f] := by
+  unfold repairFileD
+  simp only
+  split <;> simp_all
+
+theorem foldl_repairFileD_dry_out (readAll : Bool) (files : List IndexFile) (st : RepairAcc) :
+    (files.foldl (repairFileD true readAll) st).out = st.out ++ files := by
+  induction files generalizing st with
+  | nil => simp
+  | cons f fs ih => rw [List.foldl_cons, ih, repairFileD_dry_out]; simp
+
+theorem repairIndexD_dry (readHeader : Nat → Option Nat → Nat → Option (List IndexBlob)) (store : List (Nat × Nat))
+    (files : List IndexFile) (readAll : Bool) :
+    repairIndexD true readHeader store files readAll = files := by
+  unfold repairIndexD
+  simp [foldl_repairFileD_dry_out]
+
 end Rustic.Index
